@@ -9,8 +9,8 @@ def run(ctx):
     # Exhaust scripts (one per 2-byte prefix and length; the harness expands them, the trace spec re-enumerates them)
     scripts = ctx.tlc_gen("MC_RespProbe", R.probe("Spec", "Lemma EmitExhaust", n=4, p=2, nmax=nmax), "exhaust13", timeout=2400)
     if not q:
-        # length 6 (and the lemmas up to length 5) over the 8 structural symbols {* $ - 1 2 9 CR LF}
-        scripts += ctx.tlc_gen("MC_RespProbe", R.probe("Spec", "Lemma EmitExhaust", alpha="Alpha8", n=5, p=2, nmin=6, nmax=6), "exhaust8", timeout=2400)
+        # length 6 (and the lemmas up to length 5) over the 9 structural symbols {* $ - 0 1 2 9 CR LF}
+        scripts += ctx.tlc_gen("MC_RespProbe", R.probe("Spec", "Lemma EmitExhaust", alpha="Alpha9", n=5, p=2, nmin=6, nmax=6), "exhaust9", timeout=2400)
     # mutants of valid frames: byte replaced / inserted / deleted, lengths replaced by negative / huge / malformed texts, nesting
     # (+ Big scripts: 41 .. 600000 nested array headers)
     scripts += ctx.tlc_gen("MC_RespProbe", R.probe("MSpec", "Lemma EmitProbe"), "mutants", timeout=1800)
@@ -18,7 +18,7 @@ def run(ctx):
                "reservation = peak of live heap bytes above the level at the start of the decode call (counting global allocator in a "
                "forked worker, 2 MiB stack as on a tokio worker thread); bound 32 * bytes received + 1024",
                "exhaustive: all strings of length <= %d over {* $ + - : _ 0 1 2 9 a CR LF}%s; mutants and nesting are a fixed "
-               "TLC-generated set" % (nmax, "" if q else " and of length 6 over {* $ - 1 2 9 CR LF}"))
+               "TLC-generated set" % (nmax, "" if q else " and of length 6 over {* $ - 0 1 2 9 CR LF}"))
     sp = ctx.write_scripts("resp-probe", scripts)
     tr = ctx.run_harness("resp", sp, name="resp-probe", timeout=3000)
     ctx.validate("Resp_Trace", R.TRACE, tr, name="probe", corrupt=R.corrupt_res, timeout=2400)
